@@ -6,6 +6,7 @@ predicates for independent leaf/inner capacities; front-end flags and forwarding
 from engine import ir, dtable, match
 from engine.ir import kids, walk, strip_casts, const_int, ref_of
 from rules import btcommon as B
+from rules import btprim
 
 BT = B.BT
 
@@ -900,6 +901,8 @@ def run(ck):
                 B.check_underflow(ck, t, t.one(name))
             if t.small:
                 B.check_capacity(ck, t, cfg)
+                ck.guarded(lambda: btprim.check_primitives(ck, t, cfg))
+                ck.guarded(lambda: btprim.check_insert(ck, tu, t, cfg))
             check_iter_steps(ck, t)
         check_frontends(ck, tu)
     m = n_trees
@@ -910,7 +913,9 @@ def run(ck):
     ck.floor("ITER-WALK-STOP", m)
     ck.floor("DESCENT-SIBLINGS", 2 * m)
     ck.floor("UNDERFLOW-LEGAL", 4 * m)
-    ck.floor("NODE-CAPACITY", m)      # two per small_traits tree, half of the trees
+    ck.floor("NODE-CAPACITY", m)
+    ck.floor("PRIMITIVE-EFFECT", 4 * m)      # eight primitives per small_traits tree
+    ck.floor("INSERT-EFFECT", m)            # leaf and inner level per small_traits tree      # two per small_traits tree, half of the trees
     ck.floor("ITER-STEP-TWINS", 16 * m)
     ck.floor("FRONTEND-FLAGS", 12 * (m // 8))
     ck.floor("FRONTEND-FORWARD", 4 * 40 * (m // 8))
